@@ -631,6 +631,36 @@ theorem beamCX_extrapolated_returns {E : Ext α} (S : ExtSpec E) (cf wl : α) (c
   exact ⟨v, key v hv, hv⟩
 
 
+/-! ### BeamCXPEC behind the complete guard (what the model becomes when the source gains the guard) -/
+
+theorem beamCXGuarded_as_is (E : Ext α) (cf wl : α) (ex : Bool) (c : CXTable α) (en T d z bf : α) :
+    beamCXGuarded false E cf wl ex c en T d z bf = beamCX E cf wl ex c en T d z bf := by
+  simp [beamCXGuarded]
+
+/-- **zero on a non-positive energy, temperature or density** once the guard is complete -/
+theorem beamCXGuarded_zero_on_nonpositive (E : Ext α) (cf wl : α) (ex : Bool) (c : CXTable α) (en T d z bf : α)
+    (h : en ≤ 0 ∨ T ≤ 0 ∨ d ≤ 0) : beamCXGuarded true E cf wl ex c en T d z bf = Out.val 0 := by
+  unfold beamCXGuarded
+  rw [if_pos ⟨rfl, h⟩]
+
+theorem beamCXGuarded_nonneg {E : Ext α} (S : ExtSpec E) (g : Bool) (cf wl : α) (ex : Bool) (c : CXTable α)
+    (en T d z bf v : α) (h : beamCXGuarded g E cf wl ex c en T d z bf = Out.val v) : 0 ≤ v := by
+  unfold beamCXGuarded at h
+  split_ifs at h
+  · cases h; exact le_refl _
+  · exact beamCX_nonneg S cf wl ex c en T d z bf v h
+
+/-- the guard does not disturb positive arguments: table reproduction etc. carry over verbatim -/
+theorem beamCXGuarded_of_pos (g : Bool) (E : Ext α) (cf wl : α) (ex : Bool) (c : CXTable α) (en T d z bf : α)
+    (hen : 0 < en) (hT : 0 < T) (hd : 0 < d) :
+    beamCXGuarded g E cf wl ex c en T d z bf = beamCX E cf wl ex c en T d z bf := by
+  unfold beamCXGuarded
+  rw [if_neg]
+  rintro ⟨_, h | h | h⟩
+  · exact absurd hen (not_lt.mpr h)
+  · exact absurd hT (not_lt.mpr h)
+  · exact absurd hd (not_lt.mpr h)
+
 /-! ## accessor policy: general theorems about `Policy.run` for an *arbitrary* accessor descriptor
 
 `Props/C07Table.lean` shows which of the generated descriptors are `Uniform`; these theorems say what uniformity buys
